@@ -62,6 +62,10 @@ fn main() {
     let mut shard = (0usize, 1usize);
     let mut out = "out".to_string();
     let mut replay: Option<String> = None;
+    let mut isolate = false;
+    let mut from: usize = 0;
+    let mut append = false;
+    let mut stack_mb: usize = 512;
     let mut i = 2;
     while i < args.len() {
         match args[i].as_str() {
@@ -90,6 +94,19 @@ fn main() {
                 replay = Some(args[i + 1].clone());
                 i += 2
             }
+            "--isolate" => {
+                isolate = true;
+                i += 1
+            }
+            "--from" => {
+                from = args[i + 1].parse().unwrap();
+                append = true;
+                i += 2
+            }
+            "--stack-mb" => {
+                stack_mb = args[i + 1].parse().unwrap();
+                i += 2
+            }
             _ => {
                 eprintln!("unknown argument {}", args[i]);
                 std::process::exit(2);
@@ -99,22 +116,86 @@ fn main() {
     std::panic::set_hook(Box::new(|_| {}));
     // run on a thread with a large stack so that deep (but legitimate) recursion is not
     // mistaken for a defect; stack-sensitive properties (C03) use their own child processes
+    if isolate {
+        isolate_parent(&args, &out);
+        return;
+    }
     let child = std::thread::Builder::new()
-        .stack_size(512 * 1024 * 1024)
-        .spawn(move || emit(&prop, &tier, seed, shard, &out, replay))
+        .stack_size(stack_mb * 1024 * 1024)
+        .spawn(move || emit(&prop, &tier, seed, shard, &out, replay, from, append))
         .unwrap();
     child.join().unwrap();
 }
 
-fn emit(prop: &str, tier: &str, seed: u64, shard: (usize, usize), out: &str, replay: Option<String>) {
+/// Run the emission in child processes with a small fixed stack and a per-case deadline: a
+/// stack overflow or a hang kills only the child; the parent records OVERFLOW / TIMEOUT for the
+/// case that was running and restarts after it.
+fn isolate_parent(args: &[String], out: &str) {
+    std::fs::create_dir_all(out).unwrap();
+    let exe = std::env::current_exe().unwrap();
+    let mut from = 0usize;
+    let mut guard = 0;
+    loop {
+        guard += 1;
+        if guard > 2000 {
+            break;
+        }
+        let mut cmd = std::process::Command::new(&exe);
+        for a in &args[1..] {
+            if a != "--isolate" {
+                cmd.arg(a);
+            }
+        }
+        cmd.arg("--from").arg(from.to_string()).arg("--stack-mb").arg("8");
+        let status = cmd.status().expect("spawn worker");
+        if status.success() {
+            break;
+        }
+        // which case was running?
+        let marker = std::fs::read_to_string(format!("{}/current.txt", out)).unwrap_or_default();
+        let mut it = marker.split_whitespace();
+        let idx: usize = it.next().and_then(|x| x.parse().ok()).unwrap_or(from);
+        let id = it.next().unwrap_or("?").to_string();
+        let why = if status.code() == Some(3) { "TIMEOUT" } else { "OVERFLOW" };
+        use std::io::Write;
+        let mut f = std::fs::OpenOptions::new().append(true).create(true).open(format!("{}/impl.out", out)).unwrap();
+        writeln!(f, "#CASE {}\n{}\n#END", id, why).unwrap();
+        from = idx + 1;
+    }
+}
+
+fn emit(prop: &str, tier: &str, seed: u64, shard: (usize, usize), out: &str, replay: Option<String>, from: usize, append: bool) {
     std::fs::create_dir_all(out).unwrap();
     let (schemas, cases) = match replay {
         Some(path) => jobs::replay_cases(&path),
         None => jobs::cases_for(prop, tier, seed, shard),
     };
-    let mut f_cases = std::io::BufWriter::new(std::fs::File::create(format!("{}/cases.sexp", out)).unwrap());
-    let mut f_impl = std::io::BufWriter::new(std::fs::File::create(format!("{}/impl.out", out)).unwrap());
-    let mut f_meta = std::io::BufWriter::new(std::fs::File::create(format!("{}/meta.jsonl", out)).unwrap());
+    let open = |name: &str| {
+        let p = format!("{}/{}", out, name);
+        if append && from > 0 {
+            std::fs::OpenOptions::new().append(true).create(true).open(p).unwrap()
+        } else {
+            std::fs::File::create(p).unwrap()
+        }
+    };
+    let mut f_cases = std::io::BufWriter::new(open("cases.sexp"));
+    let mut f_impl = std::io::BufWriter::new(open("impl.out"));
+    let mut f_meta = std::io::BufWriter::new(open("meta.jsonl"));
+    // watchdog for isolated runs: a case that runs longer than its deadline ends the process
+    let deadline = std::sync::Arc::new(std::sync::atomic::AtomicU64::new(0));
+    if append {
+        let dl = deadline.clone();
+        std::thread::spawn(move || loop {
+            std::thread::sleep(std::time::Duration::from_millis(50));
+            let d = dl.load(std::sync::atomic::Ordering::SeqCst);
+            if d != 0 {
+                let now = std::time::SystemTime::now().duration_since(std::time::UNIX_EPOCH).unwrap().as_millis() as u64;
+                if now > d {
+                    std::process::exit(3);
+                }
+            }
+        });
+    }
     {
         let mut m = serde_json::Map::new();
         for si in &schemas {
@@ -124,7 +205,13 @@ fn emit(prop: &str, tier: &str, seed: u64, shard: (usize, usize), out: &str, rep
     }
     let mut cur_schema: Option<usize> = None;
     let mut unparsable = 0usize;
-    for c in &cases {
+    for (case_index, c) in cases.iter().enumerate() {
+        if case_index < from {
+            if cur_schema != Some(c.schema) {
+                cur_schema = Some(c.schema);
+            }
+            continue;
+        }
         let si = &schemas[c.schema];
         let doc_ast = match &c.doc {
             Some(text) => match graphql_tools::parser::parse_query::<String>(text) {
@@ -152,16 +239,6 @@ fn emit(prop: &str, tier: &str, seed: u64, shard: (usize, usize), out: &str, rep
         line.push(')');
         writeln!(f_cases, "{}", line).unwrap();
 
-        let res = catch_unwind(AssertUnwindSafe(|| jobs::run_impl(c, si, doc_ast.as_ref())));
-        let lines = match res {
-            Ok(l) => l,
-            Err(_) => vec!["PANIC".to_string()],
-        };
-        writeln!(f_impl, "#CASE {}", c.id).unwrap();
-        for l in &lines {
-            writeln!(f_impl, "{}", l).unwrap();
-        }
-        writeln!(f_impl, "#END").unwrap();
         writeln!(
             f_meta,
             "{{\"id\":{},\"family\":{},\"schema\":{},\"op\":{},\"doc\":{},\"extra\":{},\"note\":{}}}",
@@ -174,6 +251,28 @@ fn emit(prop: &str, tier: &str, seed: u64, shard: (usize, usize), out: &str, rep
             json_str(&c.note)
         )
         .unwrap();
+        if append {
+            use std::io::Write as _;
+            f_cases.flush().unwrap();
+            f_impl.flush().unwrap();
+            f_meta.flush().unwrap();
+            std::fs::write(format!("{}/current.txt", out), format!("{} {}", case_index, c.id)).unwrap();
+            let size = c.doc.as_ref().map(|d| d.len()).unwrap_or(0) as u64;
+            let now = std::time::SystemTime::now().duration_since(std::time::UNIX_EPOCH).unwrap().as_millis() as u64;
+            // generous budget: 2 s + 5 ms per character of the document
+            deadline.store(now + 2000 + 5 * size, std::sync::atomic::Ordering::SeqCst);
+        }
+        let res = catch_unwind(AssertUnwindSafe(|| jobs::run_impl(c, si, doc_ast.as_ref())));
+        deadline.store(0, std::sync::atomic::Ordering::SeqCst);
+        let lines = match res {
+            Ok(l) => l,
+            Err(_) => vec!["PANIC".to_string()],
+        };
+        writeln!(f_impl, "#CASE {}", c.id).unwrap();
+        for l in &lines {
+            writeln!(f_impl, "{}", l).unwrap();
+        }
+        writeln!(f_impl, "#END").unwrap();
     }
     writeln!(f_meta, "{{\"unparsable\":{}}}", unparsable).unwrap();
 }
